@@ -217,3 +217,21 @@ func VerifC13Interleaved() {
 	verifrt.Assert(m.TotalRequests == 2 && m.SuccessfulRequests == 2, "both concurrent requests are counted")
 	return
 }
+
+// VerifC12PickVsLastEjection: one backend of two is already ejected; a pick
+// runs while the other one - the last healthy backend - is being ejected. The
+// pick returns that backend or none; it does not panic, under any strategy.
+func VerifC12PickVsLastEjection(strategy int) {
+	lb := verifBareLB(strategy)
+	bs := []*Backend{verifBackend(0), verifBackend(1)}
+	for _, b := range bs {
+		lb.strategy.AddBackend(b)
+	}
+	lb.MarkBackendUnhealthy(bs[1], time.Hour)
+	var got *Backend
+	verifrt.Go(func() { got = lb.NextBackend(verifRequest("10.1.2.3:4711")) })
+	verifrt.Go(func() { lb.MarkBackendUnhealthy(bs[0], time.Hour) })
+	verifrt.WaitAll()
+	verifrt.Assert(got == nil || got == bs[0] || got == bs[1], "a pick racing the ejection of the last healthy backend returns a pool member or nothing")
+	verifrt.Assert(lb.findHealthyBackend(verifRequest("10.1.2.3:4711")) == nil, "with every backend inside its window no backend is dispatched to")
+}
